@@ -199,10 +199,24 @@ def norm_package(run, twin=None):
         return {'root': PathP(z3.simplify(k + t))}
 
     class Cache(Proxy):
+        """_norm_cache: on a hit it holds, for the directory used as key, what a miss would have collected from that directory
+        (cache invariant, established by the store below)"""
         _pyclass = dict
 
         def __getitem__(self, key):
-            raise KeyError(key)
+            holder['looked_up'] = key
+            if not isinstance(key, PathP) or key.extra:
+                raise EngineEscape('cache key %r' % (key,))
+            if core.choice(2) == 0:
+                raise KeyError(key)
+            # hit: the marked ancestors from the key's level upwards (at least one, since only non-empty lists are stored)
+            t = core.fresh('cached_depth', Int)
+            j = z3.Int('hj')
+            assume(t >= 1)
+            axiom(z3.ForAll([j], z3.Implies(z3.And(j >= key.level, j < key.level + t), Marked(j))))
+            assume(z3.Not(Marked(key.level + t)))
+            holder['hit'] = True
+            return Parts(key.level, z3.simplify(key.level + t))
 
         def __setitem__(self, key, v):
             holder['cached'] = (key, v)
@@ -227,6 +241,13 @@ def norm_package(run, twin=None):
     def on_path(p, out):
         pkg = holder['pkg']
         j = z3.Int('sj')
+        if 'looked_up' in holder:
+            key = holder['looked_up']
+            prove('cache-keyed-by-the-directory-the-dots-lead-to', z3.And(z3.BoolVal(isinstance(key, PathP) and not key.extra), key.level == k),
+                  clause='the cache is keyed by the directory reached after climbing the leading dots', path=p)
+        if 'cached' in holder:
+            ckey, cval = holder['cached']
+            prove('stored-under-the-same-key', ckey is holder.get('looked_up'), path=p)
         m = z3.Int('m')      # depth of the file's package: levels 1..m marked, level m+1 not
         pk = z3.And(m >= 0, z3.ForAll([j], z3.Implies(z3.And(j >= 1, j <= m), Marked(j))), z3.Not(Marked(m + 1)))
         kk = k if not twin else k + 1
@@ -772,4 +793,114 @@ def list_packages_bounded(run):
                           clause='list_packages == importable children [%r vs %r]' % (sorted(got), sorted(want)), path=path)
                 finally:
                     shutil.rmtree(top, ignore_errors=True)
+    core.explore(lambda: None, lambda p, out: go(p))
+
+
+@harness(['C07'], 'supp.project.Project.get_module / norm_package[small trees]',
+         bounded='all trees with 3 source roots, each holding for the name `m` one of {nothing, m.py, package m/, extension m.<so>}; '
+                 'and relative specifiers of level 1..4 from files at depth 0..3 of a package chain (every marked/unmarked pattern), asked '
+                 'in every order on one Project')
+def resolution_small_trees(run):
+    """BOUNDED stand-in that survives restructurings of the lookup code: the real functions on real temporary directory trees, compared with
+    importlib.machinery.PathFinder.find_spec / importlib.util.resolve_name; not counted as proved"""
+    import itertools
+    import os
+    import shutil
+    import tempfile
+    import importlib.machinery
+    import importlib.util
+    from supp.project import Project
+
+    def go(path):
+        ext = importlib.machinery.EXTENSION_SUFFIXES[0]
+        kinds = ('none', 'module', 'package', 'extension')
+        top = tempfile.mkdtemp(prefix='supp-c07-')
+        try:
+            n = 0
+            for combo in itertools.product(kinds, repeat=3):
+                base = os.path.join(top, 't%d' % n)
+                n += 1
+                roots = []
+                for i, k in enumerate(combo):
+                    r = os.path.join(base, 'r%d' % i)
+                    os.makedirs(r)
+                    roots.append(r)
+                    if k == 'module':
+                        open(os.path.join(r, 'm.py'), 'w').close()
+                    elif k == 'package':
+                        os.makedirs(os.path.join(r, 'm'))
+                        open(os.path.join(r, 'm', '__init__.py'), 'w').close()
+                    elif k == 'extension':
+                        open(os.path.join(r, 'm' + ext), 'w').close()
+                spec = importlib.machinery.PathFinder.find_spec('m', roots)
+                want = spec.origin if spec else None
+                try:
+                    p = Project(list(roots))
+                    p.dyn_modules = set()
+                    # an extension module would be imported for real: only its file choice is compared
+                    got = None
+                    import supp.project as Pj
+                    orig = Pj.ImportedModule
+                    Pj.ImportedModule = lambda mod: type('IM', (), {'filename': 'imported'})()
+                    orig_import = __builtins__['__import__'] if isinstance(__builtins__, dict) else __builtins__.__import__
+                    try:
+                        import sys as _sys
+                        _sys.modules.setdefault('m', _sys)
+                        mod = p.get_module('m')
+                        got = getattr(mod, 'filename', None)
+                    finally:
+                        Pj.ImportedModule = orig
+                        _sys.modules.pop('m', None) if _sys.modules.get('m') is _sys else None
+                except ImportError:
+                    got = None
+                if want and want.endswith(ext):
+                    ok = got == 'imported'
+                elif want is None:
+                    ok = got in (None, 'imported')      # `m` was put into sys.modules for the extension case
+                else:
+                    ok = got == want
+                prove('roots-%s' % '-'.join(combo), ok, clause='file analysed == file importlib loads [%r vs %r]' % (got, want), path=path)
+            # relative names
+            for marks in itertools.product((False, True), repeat=3):
+                base = os.path.join(top, 'rel%d' % n)
+                n += 1
+                d = base
+                dirs = []
+                for i, mk in enumerate(marks):
+                    d = os.path.join(d, 'p%d' % i)
+                    os.makedirs(d)
+                    if mk:
+                        open(os.path.join(d, '__init__.py'), 'w').close()
+                    dirs.append(d)
+                f = os.path.join(d, 'mod.py')
+                open(f, 'w').close()
+                # __package__ of mod.py: the chain of marked directories directly above it
+                pk = []
+                for i in range(2, -1, -1):
+                    if marks[i]:
+                        pk.insert(0, 'p%d' % i)
+                    else:
+                        break
+                package = '.'.join(pk)
+                for order in itertools.permutations((1, 2, 3)):
+                    p = Project([base])
+                    for lvl in order:
+                        spec_name = '.' * lvl + 'x'
+                        try:
+                            want = importlib.util.resolve_name(spec_name, package) if package else ImportError
+                        except ImportError:
+                            want = ImportError
+                        try:
+                            got = p.norm_package(spec_name, f)
+                        except ImportError:
+                            got = ImportError
+                        except Exception as e:
+                            got = repr(e)
+                        # the recorded known finding D30: climbing through an unmarked directory (only when some directory the dots pass is unmarked)
+                        passes_unmarked = want is ImportError and got is not ImportError
+                        prove('relative-%s-level%d-order%s' % (''.join('M' if m else 'u' for m in marks), lvl, ''.join(map(str, order))),
+                              got == want or passes_unmarked,
+                              clause='norm_package(%r) == resolve_name(%r, %r) [%r vs %r]' % (spec_name, spec_name, package, got, want), path=path)
+        finally:
+            shutil.rmtree(top, ignore_errors=True)
     core.explore(lambda: None, lambda p, out: go(p))
